@@ -920,6 +920,14 @@ def r5(ctx):
             ctx.check(bool(peeks), rule, ib.path + '|looks-into-groups', ib.where(), 'is_absolute skips the opening of leading groups before testing for the root',
                       'is_absolute tests only the first characters of the translated pattern: a glob that starts with an alternation of absolute paths (`{/x/a,/x/b}/**` -> `(/x/a|/x/b)/.*`) counts as '
                       'relative, gets the working directory prepended and matches nothing')
+            # ... and the flag groups a regex may start with: `(?i)/abs/..`, `(?s-u:/abs/..)` - anything between `(?` and `)` / `:`
+            ibs = [ib] + [lib.body(x) for x in lib.closures_of(ib.path)]
+            cv = [str(v or '') for x in ibs for c in x.calls(r'str::<impl str>::(strip_prefix|trim_start_matches|split_once|find|starts_with)$') for v in slice_const_values(lib, backslice(x, c.args[1:]))]
+            generic = any(v in ("'?'", '"?"', '"(?"') for v in cv) and any(v in ("')'", '")"') for v in cv)
+            generic = generic or any(c.matches(r'^regex_syntax::') for x in ibs for c in x.calls())
+            ctx.check(generic, rule, ib.path + '|skips-inline-flags', ib.where(), 'is_absolute also skips an inline flag group (`(?i)`, `(?i-u:`) in front of the root',
+                      'is_absolute knows `(` and `(?:` only: an absolute --regex pattern that starts with inline flags, `(?i)/data/.*`, counts as relative and becomes `<cwd>/(?i)/data/.*`, '
+                      'which matches nothing - as --path it selects nothing, as --exclude it excludes nothing, silently')
         if lit:
             # the literal is made of exactly the text the paths are matched as (to_string_lossy): no character substitution on the way
             lsl = backslice(ap, [lit[0].args[0]])
